@@ -291,6 +291,78 @@ static bool prep_trt(SparseMatrixCSR<Q, IT_>& t, const SparseMatrixCSR<Q, IT_>& 
 template<typename M_>
 static void out_src(std::ostream& o, const M_& src) { o << "S "; dump(o, src); o << " "; }
 
+
+// ------------------------------------------------------------------------------------------------ cross-type clones
+// observations between two containers of possibly different data / index type:
+//   sv = value array is the same memory, si = number of index arrays that are the same memory,
+//   w_ab = a write through a's value array is visible through b's, w_ba = vice versa
+struct XObs { int sv, si, wab, wba; };
+
+template<typename A_, typename B_>
+static XObs xobserve(A_& a, B_& b)
+{
+  auto& ea = a.get_elements(); auto& eb = b.get_elements();
+  auto& ia = a.get_indices(); auto& ib = b.get_indices();
+  const auto& es = a.get_elements_size();
+  XObs r{0, 0, 0, 0};
+  if(!ea.empty() && !eb.empty() && ea[0] != nullptr && (const void*)ea[0] == (const void*)eb[0]) r.sv = 1;
+  for(std::size_t k(0); k < ia.size() && k < ib.size(); ++k)
+    if(ia[k] != nullptr && (const void*)ia[k] == (const void*)ib[k]) ++r.si;
+  if(!ea.empty() && !eb.empty() && es[0] > 0 && ea[0] != nullptr && eb[0] != nullptr)
+  {
+    typedef typename std::decay<decltype(ea[0][0])>::type TA;
+    typedef typename std::decay<decltype(eb[0][0])>::type TB;
+    const Index last = es[0] - 1;
+    { TA olda = ea[0][0]; TB oldb = eb[0][0]; ea[0][0] = TA(123456789.0); r.wab = (eb[0][0] != oldb) ? 1 : 0; ea[0][0] = olda; if(!r.wab) eb[0][0] = oldb; }
+    { TA olda = ea[0][last]; TB oldb = eb[0][last]; eb[0][last] = TB(123456789.0); r.wba = (ea[0][last] != olda) ? 1 : 0; eb[0][last] = oldb; if(!r.wba) ea[0][last] = olda; }
+  }
+  return r;
+}
+
+// Layout / Allocate leave new arrays uninitialised: carry the content over (with conversion) where not shared
+template<typename A_, typename B_>
+static void xfill(const A_& a, B_& b, bool fill_val, bool fill_idx)
+{
+  const auto& ea = a.get_elements(); auto& eb = b.get_elements();
+  const auto& ia = a.get_indices(); auto& ib = b.get_indices();
+  const auto& es = a.get_elements_size(); const auto& is = a.get_indices_size();
+  typedef typename std::decay<decltype(eb[0][0])>::type TB;
+  typedef typename std::decay<decltype(ib[0][0])>::type IB;
+  if(fill_val)
+    for(std::size_t k(0); k < ea.size() && k < eb.size(); ++k)
+      if((const void*)ea[k] != (const void*)eb[k]) for(Index i(0); i < es[k]; ++i) eb[k][i] = TB(ea[k][i]);
+  if(fill_idx)
+    for(std::size_t k(0); k < ia.size() && k < ib.size(); ++k)
+      if((const void*)ia[k] != (const void*)ib[k]) for(Index i(0); i < is[k]; ++i) ib[k][i] = IB(ia[k][i]);
+}
+
+// a : X<Q, IT>  --clone(mode)-->  b : X<DT2, IT2>  --clone(mode)-->  c : X<Q, IT>;  a := c
+template<typename DT2_, typename IT2_, typename M_>
+static void op_xclone(std::ostream& o, M_& a, CloneMode cm)
+{
+  typedef typename M_::template ContainerType<DT2_, IT2_> B;
+  const bool fv = (cm == CloneMode::Layout || cm == CloneMode::Allocate), fi = (cm == CloneMode::Allocate);
+  B b;
+  b.clone(a, cm);
+  xfill(a, b, fv, fi);
+  M_ c;
+  c.clone(b, cm);
+  xfill(b, c, fv, fi);
+  XObs ab = xobserve(a, b), bc = xobserve(b, c), ac = xobserve(a, c);
+  // format the source: does the final clone change?
+  int f = 0;
+  {
+    auto& ec = c.get_elements(); const auto& es = c.get_elements_size();
+    QV before; if(!ec.empty() && ec[0] != nullptr) before.assign(ec[0], ec[0] + es[0]);
+    if(!a.get_elements().empty() && a.get_elements()[0] != nullptr) a.format(Q(mpq_class(424242, 5)));
+    for(std::size_t i(0); i < before.size(); ++i) if(ec[0][i] != before[i]) f = 1;
+    if(f) for(std::size_t i(0); i < before.size(); ++i) ec[0][i] = before[i];
+  }
+  o << "X " << ab.sv << " " << ab.si << " " << ab.wab << " " << ab.wba << " " << bc.sv << " " << bc.si << " " << bc.wab << " " << bc.wba
+    << " " << ac.sv << " " << ac.si << " " << ac.wab << " " << ac.wba << " " << f << " ";
+  a = std::move(c);
+}
+
 // ------------------------------------------------------------------------------------------------ initial matrices
 template<typename IT_, int BH_, int BW_>
 static void init_bcsr(Cur& c, SparseMatrixBCSR<Q, IT_, BH_, BW_>& a)
@@ -457,6 +529,21 @@ static bool step(Cur& c, St<IT_>& s, std::ostream& o)
       }
     });
     return ok;
+  }
+  if(op == "xclone")
+  {
+    // cross-type clone chain: data type different (Q -> double -> Q) / same, index type different (IT -> IT' -> IT) / same
+    Index d = c.idx(), i = c.idx(), m = c.idx();
+    if(d > 1 || i > 1 || m > 4 || (d == 0 && i == 0)) return false;
+    const CloneMode cm = (m == 0 ? CloneMode::Shallow : m == 1 ? CloneMode::Layout : m == 2 ? CloneMode::Weak : m == 3 ? CloneMode::Deep : CloneMode::Allocate);
+    typedef typename OtherIT<IT_>::type IT2;
+    visit(s, [&](auto& a)
+    {
+      if(d == 0) op_xclone<Q, IT2>(o, a, cm);
+      else if(i == 0) op_xclone<double, IT_>(o, a, cm);
+      else op_xclone<double, IT2>(o, a, cm);
+    });
+    return true;
   }
   if(op == "layoutz" || op == "layouta")
   {
